@@ -138,7 +138,7 @@ def fld(ex, v, idx, ty='usize'):
 
 
 @common.part
-def round_trip(chk, prog, ro_v, wf, fld, R, RO, cur, left, after_d, dur, now, from_body):
+def round_trip(chk, prog, ro_v, wf, fld, R, RO, cur, left, after_d, dur, now, from_body, prop='C05'):
     """Whatever RetryOptionsWithDeadline stores: (1) converting the options of a queued entry back (what Features::get does
     when it hands the entry out, at any later clock reading) gives the configured budget and the configured DELAY again, so
     that the next retry waits as long as this one; (2) an entry re-queued at `now` with delay d reports `left_until_retry`
@@ -147,7 +147,7 @@ def round_trip(chk, prog, ro_v, wf, fld, R, RO, cur, left, after_d, dur, now, fr
     wo_b = common.find_method(prog, 'RetryOptions', 'without_deadline')
     lu_b = common.find_method(prog, 'RetryOptionsWithDeadline', 'left_until_retry')
     for which in ('with_deadline', 'without_deadline'):
-        o = chk.add(Obligation('C05.round-trip[%s]' % which, 'all budgets, delays present/absent with all 64-bit values < 2^62, all clock readings (symbolic monotone clock)'))
+        o = chk.add(Obligation('%s.round-trip[%s]' % (prop, which), 'all budgets, delays present/absent with all 64-bit values < 2^62, all clock readings (symbolic monotone clock)'))
         o.verdict = 'holds'
         ex, M = chk.new_exec(loop_bound=6)
 
@@ -258,7 +258,9 @@ def confirm_round_trip(chk, o, which):
         o.detail += ' | not reproduced natively (in-crate replay: options come back as configured, waits as specified)'
 
 
-def body(chk):
+@common.part
+def kernels(chk, prop='C05'):
+    """the retry arithmetic kernels (all 64-bit values), under the name of the property that relies on them"""
     prog = chk.prog
     t = prog.tables
     R = {n: t.struct_fields('event::Retries').index(n) for n in ('current', 'left')}
@@ -298,12 +300,12 @@ def body(chk):
         d = M.discr(ex, r)
         some_ok = is_retries(ex, M, ex.field_of(ex.materialize(r), 1, 0, 'event::Retries'), cur + 1, left - 1) if ex.check(d == bv(1)) else z3.BoolVal(True)
         return z3.And(d == z3.If(z3.UGT(left, bv(0)), bv(1), bv(0)), z3.Implies(d == bv(1), some_ok))
-    simple(chk, 'C05.Retries::next_try', 'all 2^128 (current, left) pairs', b, lambda ex, M: [retries_v()], claim1)
+    simple(chk, prop + '.Retries::next_try', 'all 2^128 (current, left) pairs', b, lambda ex, M: [retries_v()], claim1)
 
     # 2. Retries::initial
     b = common.find_method(prog, 'Retries', 'initial')
     n = z3.BitVec('n', 64)
-    simple(chk, 'C05.Retries::initial', 'all n', b, lambda ex, M: [n],
+    simple(chk, prop + '.Retries::initial', 'all n', b, lambda ex, M: [n],
            lambda ex, M, kind, r: is_retries(ex, M, r, bv(0), n) if kind == 'ok' else z3.BoolVal(False))
 
     # 3. RetryOptions::next_try
@@ -325,7 +327,7 @@ def body(chk):
         return z3.And(z3.UGT(left, bv(0)), d == bv(1),
                       is_retries(ex, M, ex.field_of(ro, None, RO['retries'], 'event::Retries'), cur + 1, left - 1),
                       opt_dur_same(ex, M, ex.field_of(ro, None, RO['after'], 'Option<Duration>'), after_d, dur))
-    simple(chk, 'C05.RetryOptions::next_try', 'all (current, left), delay present/absent, all delays', b,
+    simple(chk, prop + '.RetryOptions::next_try', 'all (current, left), delay present/absent, all delays', b,
            lambda ex, M: (wf(ex), [ro_v()])[1], claim3)
 
     # 4. with_deadline / without_deadline / From
@@ -351,9 +353,9 @@ def body(chk):
                     c.append(di == bv(0))
             return z3.And(*c)
         return claim
-    simple(chk, 'C05.RetryOptions::with_deadline', 'all values', common.find_method(prog, 'RetryOptions', 'with_deadline'),
+    simple(chk, prop + '.RetryOptions::with_deadline', 'all values', common.find_method(prog, 'RetryOptions', 'with_deadline'),
            lambda ex, M: (wf(ex), [ro_v(), now])[1], deadline_claim(True))
-    simple(chk, 'C05.RetryOptions::without_deadline', 'all values', common.find_method(prog, 'RetryOptions', 'without_deadline'),
+    simple(chk, prop + '.RetryOptions::without_deadline', 'all values', common.find_method(prog, 'RetryOptions', 'without_deadline'),
            lambda ex, M: (wf(ex), [ro_v()])[1], deadline_claim(False))
     fb = [bb for (st, m), lst in prog.by_method.items() if st == 'RetryOptions' and m == 'from' for tr, bb in lst if tr == 'From']
     if len(fb) != 1:
@@ -365,7 +367,7 @@ def body(chk):
         r = ex.materialize(r)
         return z3.And(is_retries(ex, M, ex.field_of(r, None, RO['retries'], 'event::Retries'), cur, left),
                       opt_dur_same(ex, M, ex.field_of(r, None, RO['after'], 'Option<Duration>'), after_d, dur))
-    simple(chk, 'C05.From<RetryOptionsWithDeadline>', 'all values', fb[0], lambda ex, M: (wf(ex), [rd_v()])[1], claim_from)
+    simple(chk, prop + '.From<RetryOptionsWithDeadline>', 'all values', fb[0], lambda ex, M: (wf(ex), [rd_v()])[1], claim_from)
 
     # 5. left_until_retry
     b = common.find_method(prog, 'RetryOptionsWithDeadline', 'left_until_retry')
@@ -387,11 +389,15 @@ def body(chk):
         if ex.check(d == bv(1)):
             c.append(z3.Implies(d == bv(1), ex.materialize(ex.field_of(ex.materialize(r), 1, 0, 'std::time::Duration'), 'std::time::Duration') == dur - e))
         return z3.And(*c)
-    simple(chk, 'C05.left_until_retry', 'all delays, all clock readings (elapsed symbolic, 64-bit nanoseconds)', b,
+    simple(chk, prop + '.left_until_retry', 'all delays, all clock readings (elapsed symbolic, 64-bit nanoseconds)', b,
            lambda ex, M: (wf(ex), [Ref(Cell(rd_v()), ())])[1], claim_left)
-    round_trip(chk, prog, ro_v, wf, fld, R, RO, cur, left, after_d, dur, now, fb[0])
+    round_trip(chk, prog, ro_v, wf, fld, R, RO, cur, left, after_d, dur, now, fb[0], prop)
     chk.assumptions += ['Duration / Instant are abstract 64-bit nanosecond values; Instant::elapsed returns an arbitrary value (symbolic clock)',
                         'run_scenario\'s `retries.filter(|_| is_failed).and_then(next_try)` lives in a multi-poll coroutine (see DESIGN: stage M3)']
+
+
+def body(chk):
+    kernels(chk, 'C05')
     sched.insert_scenarios_obligations(chk, 'C05')
     from checks import insert_retry
     insert_retry.obligations(chk, 'C05')
